@@ -857,6 +857,8 @@ func (fr *frame) step(ins ssa.Instruction, lg *Term, b *ssa.BasicBlock) {
 			default:
 				unsupported("load through %T at %s", p, where())
 			}
+		case token.XOR:
+			fr.env[x] = BVBin(OpBVXor, fr.term(x.X), BV(-1))
 		case token.NOT:
 			fr.env[x] = Not(fr.term(x.X))
 		case token.SUB:
@@ -1107,6 +1109,14 @@ func (fr *frame) convert(x *ssa.Convert, where string) Value {
 			return v
 		}
 	}
+	if bv, ok := v.(*BytesVal); ok && tb != nil && tb.Info()&types.IsString != 0 {
+		// string(b) of an abstract byte view: the first N bytes of the buffer content
+		content := bv.Obj.cells[0].(*Term)
+		if bv.N == StrLenBV(content) {
+			return content
+		}
+		unsupported("string() of a byte view that is shorter than the data last read at %s", where)
+	}
 	unsupported("conversion %v -> %v at %s", x.X.Type(), x.Type(), where)
 	return nil
 }
@@ -1154,6 +1164,23 @@ func (fr *frame) binop(x *ssa.BinOp, where string) Value {
 				return BVBin(OpBVSLt, bv, av)
 			case token.GEQ:
 				return BVBin(OpBVSLe, bv, av)
+			case token.AND:
+				return BVBin(OpBVAnd, av, bv)
+			case token.OR:
+				return BVBin(OpBVOr, av, bv)
+			case token.XOR:
+				return BVBin(OpBVXor, av, bv)
+			case token.AND_NOT:
+				return BVBin(OpBVAnd, av, BVBin(OpBVXor, bv, BV(-1)))
+			case token.SHL:
+				fr.ex.panicIf(BVBin(OpBVSLt, bv, BV(0)), "negative shift amount at "+where)
+				return BVBin(OpBVShl, av, bv)
+			case token.SHR:
+				fr.ex.panicIf(BVBin(OpBVSLt, bv, BV(0)), "negative shift amount at "+where)
+				if bt, ok := x.X.Type().Underlying().(*types.Basic); ok && bt.Info()&types.IsUnsigned != 0 {
+					return BVBin(OpBVLshr, av, bv)
+				}
+				return BVBin(OpBVAshr, av, bv)
 			}
 		case SFP:
 			switch x.Op {
